@@ -15,7 +15,7 @@ import os
 
 from hypothesis import strategies as st
 
-from ..core import HarnessError, fmt_exc, innermost_pkg_frame, run_given, short
+from ..core import HarnessError, fmt_exc, innermost_pkg_frame, run_given, with_spellings, short
 from ..gen import types as G
 
 ID = "C02"
@@ -45,7 +45,7 @@ _PARSERS = {}
 def parser_for(shape):
     from jsonargparse import ArgumentParser
 
-    key = json.dumps(shape, sort_keys=True, default=repr)
+    key = json.dumps([G.SPELL[0], shape], sort_keys=True, default=repr)
     p = _PARSERS.get(key)
     if p is None:
         if len(_PARSERS) > 3000:
@@ -658,8 +658,8 @@ def run_shard(spec, ctx):
         from ..core import run_atheris
 
         ctx.cls("engine:atheris")
-        return run_atheris(ctx, case_strategy(spec["depth"]), body(ctx), spec["n"])
-    run_given(ctx, case_strategy(spec["depth"]), body(ctx), spec["n"])
+        return run_atheris(ctx, with_spellings(case_strategy(spec["depth"])), body(ctx), spec["n"])
+    run_given(ctx, with_spellings(case_strategy(spec["depth"])), body(ctx), spec["n"])
 
 
 def health(tier, evaluations, nontrivial, classes):
